@@ -245,7 +245,9 @@ impl World {
 
     /// a KQL / META command's result as canonical JSON text (errors included)
     pub async fn ask(&self, command: &str) -> String {
-        match self.run(command, &BTreeMap::new(), false).await {
+        // (`:c1` = the first Concept: BELIEF SLOT needs a fixed subject)
+        let params: BTreeMap<String, String> = if command.contains(":c1") { [("c1".to_string(), "C-1".to_string())].into_iter().collect() } else { BTreeMap::new() };
+        match self.run(command, &params, false).await {
             Err(e) => format!("parse-error: {e}"),
             Ok(r) => {
                 if r.status != TopLevelStatus::Succeeded {
